@@ -21,6 +21,9 @@ from .values import (S, VOpt, VQty, VTime, VDelta, VEnum, SEnum, VRec, VRef, HOb
                      BoundBuiltin, Opaque, Unsupported, fresh_name, reset_fresh, GhostSeq, KeySetVal, HKeySet, HOptDict, HSymList, HSymSet)
 
 
+TASK_OUTCOMES = ["returned", "Exception", "CancelledError"]
+
+
 class FunctionReport:
     def __init__(self, target):
         self.target = target
@@ -109,6 +112,8 @@ class Engine:
         return any(b.split(".")[-1] == last for b in ci.bases)
 
     def enum_members(self, qual):
+        if qual == "task_outcome":
+            return TASK_OUTCOMES
         if qual.startswith("ext:"):
             if qual not in specmod.EXT_ENUMS:
                 raise Unsupported(f"external enum {qual}: members not declared")
@@ -328,6 +333,18 @@ class Engine:
             return SEnum(shape.cls, list(members), z)
         if k == "const":
             return self.const_value(ctx, shape.value)
+        if k == "oneof":
+            for i, v in enumerate(shape.values[:-1]):
+                if ctx.branch(z3.Bool(f"{name}.is[{i}]"), f"{name} == {v!r}"):
+                    return self.const_value(ctx, v)
+            return self.const_value(ctx, shape.values[-1])
+        if k == "task":
+            oc = z3.Int(name + ".outcome")
+            ctx.assume(z3.Or(*[oc == TASK_OUTCOMES.index(o) for o in shape.outcomes]))
+            return ctx.alloc(HObj("ext:asyncio.Task", {
+                "_done": S(z3.Bool(name + ".done"), "bool"), "_outcome": SEnum("task_outcome", list(TASK_OUTCOMES), oc),
+                "callbacks": ctx.alloc(HList([])), "cancel_requested": False, "__methods__": {}, "__stream__": None,
+                "calls": ctx.alloc(HList([])), "results": ctx.alloc(HList([]))}))
         if k == "subset":
             items = [e for e in shape.elems if ctx.branch(z3.Bool(f"{name}.has[{e!r}]"), f"{e!r} in {name}")]
             return frozenset(items) if shape.frozen else ctx.alloc(HSet(items))
@@ -727,9 +744,22 @@ class Engine:
                 g = self.eval_clause(it, expr, sfr)
                 ctx.check(f"{fname}::loop[{key}].{kind}.{nm}", g, kind="loop_" + kind, state=dict(fr.locals))
 
+        for line in spec.get("ghost_init", []):
+            it.exec_block(ast.parse(line).body, fr)
         check_invs("init")
         # havoc everything the body may assign
         targets = self.assigned_names(node.body)
+        for line in spec.get("ghost_stmts", []):
+            for st in ast.parse(line).body:
+                for n in ast.walk(st):
+                    # ghost variables assigned (or updated through a subscript/attribute) by the ghost code
+                    if isinstance(n, (ast.Assign, ast.AugAssign)):
+                        for t in (n.targets if isinstance(n, ast.Assign) else [n.target]):
+                            base = t
+                            while isinstance(base, (ast.Subscript, ast.Attribute)):
+                                base = base.value
+                            if isinstance(base, ast.Name) and base.id not in targets:
+                                targets.append(base.id)
         if is_for:
             targets += self.assigned_names([ast.Expr(node.target)]) if False else []
             for n in ast.walk(node.target):
@@ -782,6 +812,8 @@ class Engine:
             except _Break:
                 broke = True
             if not broke:
+                for line in spec.get("ghost_stmts", []):
+                    it.exec_block(ast.parse(line).body, fr)
                 if is_for:
                     fr.locals[idx] = mk(iz + 1, "int")
                 check_invs("preserve")
@@ -1043,9 +1075,16 @@ class Engine:
                 shape = c.shapes[p]
             else:
                 raise Unsupported(f"no shape declared for parameter {p}")
+            if shape.kind == "alias":
+                continue
             v = self.make_sym(ctx, shape, p)
             fr.locals[p] = v
             ctx.input_syms[p] = (shape, v)
+        for p in params:
+            shape = c.shapes.get(p)
+            if shape is not None and shape.kind == "alias":
+                afr = Frame(cm, dict(fr.locals), closure=None)
+                fr.locals[p] = it.eval(self.parse_clause(shape.expr), afr)
         for g, shape in c.ghost.items():
             v = self.make_sym(ctx, shape, "ghost_" + g)
             ctx.ghost[g] = v
